@@ -41,7 +41,7 @@ def configs(ctx, nproc):
     out = []
     for k in range(nproc):
         hs = str(k) if k % 5 != 4 else "random"
-        out.append((hs, {"junk_alloc": 0 if k == 0 else rng.randint(0, 400), "junk_elab": 0 if k == 0 else rng.randint(0, 12), "junk_pdk": 0 if k == 0 else rng.randint(0, 3), "junk_gen_spell": 0 if k == 0 else k % 2, "junk_gen_compile": 0 if k == 0 else (k // 2) % 2, "gc": k % 3 != 2}))
+        out.append((hs, {"junk_alloc": 0 if k == 0 else rng.randint(0, 400), "junk_elab": 0 if k == 0 else rng.randint(0, 12), "junk_pdk": 0 if k == 0 else rng.randint(0, 3), "junk_gen_spell": 0 if k == 0 else k % 2, "junk_gen_compile": 0 if k == 0 else (k // 2) % 2, "junk_ext": 0 if k == 0 else (k + 1) % 2, "gc": k % 3 != 2}))
     return out
 
 
@@ -80,7 +80,7 @@ def attribute(ctx, label, seed, n, ca, cb):
     """Which kind of unrelated earlier work explains the difference?  Re-runs the two processes with one knob zeroed in both; returns the
     first knob without which the label's outputs agree (None if no single knob explains it)."""
     (ha, cfa), (hb, cfb) = ca, cb
-    for knob in ("junk_gen_spell", "junk_gen_compile", "junk_pdk", "junk_elab", "junk_alloc"):
+    for knob in ("junk_gen_spell", "junk_gen_compile", "junk_ext", "junk_pdk", "junk_elab", "junk_alloc"):
         if cfa.get(knob, 0) == cfb.get(knob, 0):
             continue
         outs = []
@@ -125,6 +125,14 @@ def run(ctx, rec):
         rec.inconclusive.append("fewer than two processes completed")
         return
     base_cfg, base = logs[0]
+    # the unrelated earlier work that was asked for must have been carried out (a junk design that fails to build perturbs nothing)
+    for (hs, cfg), l in logs:
+        done = l.pop("__perturbed__", {})
+        for knob in ("junk_ext", "junk_pdk", "junk_gen_spell", "junk_gen_compile"):
+            if cfg.get(knob, 0) > 0:
+                rec.count(f"perturbation.{knob}", done.get(knob, 0))
+                if done.get(knob, 0) == 0:
+                    rec.inconclusive.append(f"process {cfg}: none of the requested earlier work '{knob}' could be carried out")
     for label in sorted(base):
         ok_everywhere = all("raised" not in str(l.get(label, {}).get("pkg", "raised")) for _, l in logs)
         rec.case(key=label, nontrivial=ok_everywhere, sample={"design": label, "digests_process0": base[label]} if rec.evaluations % 25 == 3 else None)
